@@ -54,9 +54,10 @@ def split_terms(v, field):
     return groups
 
 
-def linear_gain(v, field, N):
+def linear_gain(v, field, N, anti=False):
     """Return gain Rat such that sum|v|^2 = gain * sum|field|^2 for every field,
-    checking that v is complex-linear in `field`.  Raises NotLinear /
+    checking that v is complex-linear in `field` (`anti`: inside an odd number of conjugations, where the expression must
+    be anti-linear for the whole to be linear - conj(T(conj(x))) is a linear operator).  Raises NotLinear /
     NotConstantModulus with an explanation."""
     groups = split_terms(v, field)
     if len(groups) != 1:
@@ -68,17 +69,21 @@ def linear_gain(v, field, N):
     if bad:
         raise NotConstantModulus("array-valued multiplier whose modulus is not constant: |%s|^2 = %s"
                                  % (scalar.show()[:100], mod2.show()[:160]))
-    return mod2 * carrier_gain(carrier, field, N)
+    return mod2 * carrier_gain(carrier, field, N, anti)
 
 
-def carrier_gain(atom, field, N):
+def carrier_gain(atom, field, N, anti=False):
     if atom == field:
+        if anti:
+            raise NotLinear("the conjugate of the field is not complex-linear")
         return Rat.const(1)
     if isinstance(atom, Fn):
         if atom.name in LINEAR_PERM:
-            return linear_gain(atom.args[0], field, N)
+            return linear_gain(atom.args[0], field, N, anti)
         if atom.name in DFT_POWER:
-            return linear_gain(atom.args[0], field, N) * (N ** DFT_POWER[atom.name])
+            return linear_gain(atom.args[0], field, N, anti) * (N ** DFT_POWER[atom.name])
+        if atom.name == "conj" and len(atom.args) == 1 and isinstance(atom.args[0], Rat):
+            return linear_gain(atom.args[0], field, N, not anti)          # modulus unchanged; linearity flips
         if atom.name in ("abs", "real", "imag", "conj"):
             raise NotLinear("%s() of the field is not complex-linear" % atom.name)
     raise NotLinear("input field passes through %s, which is not a recognised linear operator"
